@@ -162,8 +162,30 @@ func gen(t *rapid.T) Case {
 				if withSoft {
 					links++
 					var ls [][2]string
-					for j := 0; j < rapid.IntRange(0, 12).Draw(t, "nlinks"); j++ {
-						ls = append(ls, [2]string{fmt.Sprintf("l%d", j), objs[rapid.IntRange(0, len(objs)-1).Draw(t, "tgt")].path})
+					nl, pad := rapid.IntRange(0, 12).Draw(t, "nlinks"), ""
+					if rapid.IntRange(0, 11).Draw(t, "bigdense") == 0 {
+						// link messages beyond 64 KiB in total: heap offsets above 65535 in the group's 512 KiB heap block
+						nl, pad = rapid.IntRange(240, 320).Draw(t, "nlinksBig"), strings.Repeat("n", rapid.IntRange(200, 250).Draw(t, "pad"))
+					}
+					tgt0 := rapid.IntRange(0, len(objs)-1).Draw(t, "tgt")
+					var dsets []info
+					for j := 0; j < nl; j++ {
+						tg := objs[(tgt0+j)%len(objs)]
+						if pad != "" && tg.kind != "dataset" {
+							// hundreds of links to groups multiply the number of paths without adding anything
+							if dsets == nil {
+								for _, o := range objs {
+									if o.kind == "dataset" {
+										dsets = append(dsets, o)
+									}
+								}
+							}
+							if len(dsets) == 0 {
+								break
+							}
+							tg = dsets[(tgt0+j)%len(dsets)]
+						}
+						ls = append(ls, [2]string{fmt.Sprintf("l%d%s", j, pad), tg.path})
 					}
 					dgp := join(fmt.Sprintf("dg%d", links))
 					c.Ops = append(c.Ops, hist.Op{K: "densegroup", Path: dgp, Links: ls})
@@ -340,9 +362,9 @@ func linkedFromDense(m *hist.Model, path string) bool {
 	if o == nil {
 		return false
 	}
-	for _, l := range m.Paths() {
-		if l.Kind == "hard" && l.Obj.Kind == "group" && l.Obj.Dense {
-			for _, dl := range l.Obj.Links {
+	for _, g := range m.Objects() {
+		if g.Kind == "group" && g.Dense {
+			for _, dl := range g.Links {
 				if dl.Kind == "hard" && dl.Obj == o {
 					return true
 				}
